@@ -57,7 +57,7 @@ fn clamp<T: IntSc>() {
 pub fn register(v: &mut Vec<Scenario>) {
     macro_rules! sc { ($name:expr, $f:ident, $Sym:ty, [$(($en:literal, $pin:literal, $N:ty)),+], $funcs:expr) => {
         v.push(Scenario { name: $name.to_string(), prop: "C17", tier: 0, funcs: $funcs, sym: Box::new(|| $f::<$Sym>()), f64_: None, cn: None,
-            extra: vec![$(($en, $pin, Box::new(|| $f::<$N>()) as crate::explore::Run)),+], max_paths: 4096, timeout: Some((6, 120)) });
+            extra: vec![$(($en, $pin, Box::new(|| $f::<$N>()) as crate::explore::Run)),+], max_paths: 4096, timeout: Some((20, 120)) });
     } }
     macro_rules! both { ($base:literal, $f:ident, $funcs:expr) => {
         sc!(concat!("c17/int/signed/", $base), $f, SymIS, [("i8", "(= M 127)", i8), ("i16", "(= M 32767)", i16), ("i32", "(= M 2147483647)", i32), ("i64", "(= M 9223372036854775807)", i64)], $funcs);
